@@ -238,7 +238,6 @@ func runCase(t *testing.T, res *engine.Result, c caseSpec, verbose bool) {
 				if err != nil {
 					t.Fatalf("R3-Envoy cannot interpret the route configuration (%s, %s:%d, %s): %v", c, p.Kind, l.Port, req, err)
 				}
-				want0 := c.evalVS(p, l.Port, req, readings[0])
 				ok := false
 				usedOpen := -1
 			search:
@@ -289,6 +288,14 @@ func runCase(t *testing.T, res *engine.Result, c caseSpec, verbose bool) {
 								}
 							}
 						}
+						// ties: prefer the readings under which the unchanged tree is known to pass
+						// (labelling only; acceptance never depends on this)
+						n *= 8
+						for _, b := range []bool{rd.AbsentIsEmpty, rd.GwIgnoresSource, rd.PortIsSelector} {
+							if b {
+								n++
+							}
+						}
 						if n > bestN {
 							bestFit, bestN = i, n
 						}
@@ -323,9 +330,9 @@ func runCase(t *testing.T, res *engine.Result, c caseSpec, verbose bool) {
 					// name the match shape that misbehaves: the generated route that took a request its
 					// rule does not cover (over-match), else the rule whose request was not taken (under-match)
 					if gotRule != "" && (rep.MatchName == "" || !sameVS(rep.Why, gotRule) || ruleBefore(gotRule, rep.Why)) {
-						key = fmt.Sprintf("selection|%s:%d|over-match|%s", p.Kind, l.Port, gotDesc)
+						key = fmt.Sprintf("selection|%s:%d|over-match|%s", p.Kind, l.Port, dropVS(gotDesc))
 					} else {
-						key = fmt.Sprintf("selection|%s:%d|under-match|%s", p.Kind, l.Port, wantDesc)
+						key = fmt.Sprintf("selection|%s:%d|under-match|%s", p.Kind, l.Port, dropVS(wantDesc))
 					}
 				}
 				var alts []string
@@ -349,6 +356,14 @@ func runCase(t *testing.T, res *engine.Result, c caseSpec, verbose bool) {
 			break
 		}
 	}
+}
+
+// dropVS turns "rule[<vs>:<match>]" into "rule[<match>]" (keys name the match shape only).
+func dropVS(d string) string {
+	if i, j := strings.Index(d, "["), strings.Index(d, ":"); i >= 0 && j > i {
+		return d[:i+1] + d[j+1:]
+	}
+	return d
 }
 
 // sameVS / ruleBefore compare two attributions of the form "<vs>/r<i>[.m<j>]".
